@@ -1,20 +1,32 @@
 /-
   C06 / C07 for the CONCRETE environment (Model/ScriptEnvReal.lean — the term the driver evaluates):
-  hashes = Crypto.sha1 / ripemd160 / sha256, `sigCheck` = C03's model of `RawSignatureHash` followed
-  by SEC1 / strict-DER decoding and ECDSA verification over Crypto.Secp256k1.
+  hashes = Crypto.sha1 / ripemd160 / sha256; `sigHash` = the model of `RawSignatureHash` for any
+  Python int index (C03's model for `inIdx ≥ 0`, the wrap-around transcription `rawSignatureHashNeg`
+  for `inIdx < 0`) with every exception an explicit outcome; `sigVerify` = SEC1 / strict-DER
+  decoding and ECDSA verification over Crypto.Secp256k1.
 
-  `CodesepInsensitive` is PROVED here from C03 (`findAndDelete_codesep`, `findAndDelete_invalid`,
-  `parses_iff`): the legacy signature hash removes every OP_CODESEPARATOR *operation* from the
-  script code before hashing, so the separator operation the model keeps in front of the
-  subscript (`CodeRel`) does not change the digest — for script codes that tokenise and for those
-  that do not (then both sides raise).  The remaining hypotheses are the honest ones:
-  * `HashesOK realHashes` — digest lengths of the executable SHA-1 / RIPEMD-160 / SHA-256
-    (to be discharged from Proofs/CryptoLen.lean when it lands on branch `crypto`);
-  * the input index is a natural number (`realCtx tx ↑inIdx`), flags admissible for `VerifyScript`;
-  * `EvalScript`: caller stack of at most 1000 items, each at most `B < 2³²` bytes.
+  Nothing about the environment is assumed here:
+  * `hashesOK_real` — digest lengths, from Proofs/CryptoLen.lean;
+  * `codesepInsensitive_real` — from C03 (`findAndDelete_codesep`, `findAndDelete_invalid`,
+    `parses_iff`): the legacy signature hash removes every OP_CODESEPARATOR *operation* from the
+    script code before hashing, so the separator operation the model keeps in front of the subscript
+    (`CodeRel`) does not change the digest, for script codes that tokenise and for those that do not;
+  * `sigHashOK_real`, `raises_real_iff` — every outcome of `RawSignatureHash`.
+  The hypotheses that remain are about the CALL:
+  * `FieldsWF tx` — transaction fields in wire range (otherwise `from_tx` / `serialize` raise
+    ValueError / struct.error, which the model propagates as `.py` outcomes — outside every theorem here
+    except the limit theorems, which need nothing);
+  * `IdxOK tx inIdx` — `0 ≤ inIdx`, or `−|vin| ≤ inIdx` and `−|vout| ≤ inIdx` (Python's negative
+    indexing WRAPS there and nothing is raised: the equivalence and containment theorems hold for
+    those indices too, against the reference run with the wrapped signature check).  For the other
+    negative indices IndexError escapes (known finding D7): `only_known_findings_real` pins the class
+    and the index range;
+  * flags admissible for `VerifyScript`; `EvalScript`: caller stack of at most 1000 items, each at
+    most `B < 2³²` bytes.
   Helper lemmas: Proofs/ScriptEnvReal.lean.
 -/
 import BtcVerif.Proofs.ScriptEnvReal
+import BtcVerif.Proofs.CryptoLen
 import BtcVerif.Props.C06
 import BtcVerif.Props.C07
 
@@ -23,14 +35,34 @@ open BtcVerif BtcVerif.Spec BtcVerif.Spec.Script BtcVerif.Model.Script BtcVerif.
 open BtcVerif.Model.ScriptEval.Real
 
 /-- the modelled `RawSignatureHash` does not see a leading OP_CODESEPARATOR operation of the script
-    code (any script code, any transaction, index and hash type) -/
-theorem rawSignatureHash_ignores_leading_codesep (sc : Bytes) (tx : Tx) (i : Nat) (ht : Int) :
-    Model.Sighash.rawSignatureHash ((0xab : UInt8) :: sc) tx i ht = Model.Sighash.rawSignatureHash sc tx i ht :=
-  rawSignatureHash_codesep sc tx i ht
+    code (any script code, any transaction, any Python int index and hash type) -/
+theorem rawSignatureHash_ignores_leading_codesep (sc : Bytes) (tx : Tx) (i : Int) (ht : Int) :
+    rawSignatureHashInt ((0xab : UInt8) :: sc) tx i ht = rawSignatureHashInt sc tx i ht :=
+  rawSignatureHashInt_codesep sc tx i ht
 
 /-- hence the concrete signature check satisfies the hypothesis of `C06.eval_equiv` / `verify_equiv` -/
-theorem codesepInsensitive_real (tx : Tx) (inIdx : Nat) : CodesepInsensitive (realEnv tx inIdx) :=
+theorem codesepInsensitive_real (tx : Tx) (inIdx : Int) : CodesepInsensitive (realEnv tx inIdx) :=
   realEnv_codesepInsensitive tx inIdx
+
+/-- the executable SHA-1 / RIPEMD-160 / SHA-256 return 20 / 20 / 32 bytes: `HashesOK` discharged -/
+theorem hashesOK_real : HashesOK realHashes := by
+  intro x
+  simp only [realHashes, Crypto.sha1_length, Crypto.ripemd160_length, Crypto.sha256_length]
+  omega
+
+/-- for a transaction in wire range and an index that is non-negative or wraps, `RawSignatureHash`
+    returns a digest for every script code (≤ 10 000 bytes) that tokenises and every hash-type byte -/
+theorem sigHashOK_real (tx : Tx) (inIdx : Int) (hwf : Sighash.FieldsWF tx) (hidx : IdxOK tx inIdx) :
+    SigHashOK (realCtx tx inIdx) :=
+  Real.sigHashOK_real tx inIdx hwf hidx
+
+/-- the exceptions other than CScriptInvalidError that `RawSignatureHash` hands to the interpreter, for
+    a transaction in wire range: IndexError and nothing else, exactly at the negative indices that
+    do not wrap around both lists (D7) -/
+theorem raises_real_iff (tx : Tx) (inIdx : Int) (hwf : Sighash.FieldsWF tx) (cls : String) :
+    (realCtx tx inIdx).Raises cls ↔
+      (cls = "IndexError" ∧ inIdx < 0 ∧ (inIdx < -(tx.vin.length : Int) ∨ inIdx < -(tx.vout.length : Int))) :=
+  Real.raises_real_iff tx inIdx hwf cls
 
 /-- coherence of the two models of `FindAndDelete`: the interpreter's (Model/ScriptEval) returns
     what C03's (Model/Sighash) returns, and raises CScriptInvalidError on the same scripts -/
@@ -41,53 +73,74 @@ theorem findAndDelete_coherent (cap : Captured) (script sig : Bytes) :
       | .error _ => .error (.invalid cap) :=
   findAndDelete_models_agree cap script sig
 
-theorem realCtx_env (tx : Tx) (inIdx : Nat) : (realCtx tx (inIdx : Int)).env = realEnv tx inIdx := by
-  simp [realCtx]
-
 /-- `eval_equiv` for the concrete environment -/
-theorem eval_equiv_real (tx : Tx) (inIdx : Nat) (fl : Flags) (stack : List Bytes) (script : Bytes) (B : Nat)
-    (hh : HashesOK realHashes) (hB : 520 ≤ B) (hB2 : B < 2 ^ 32)
+theorem eval_equiv_real (tx : Tx) (inIdx : Int) (fl : Flags) (stack : List Bytes) (script : Bytes) (B : Nat)
+    (hwf : Sighash.FieldsWF tx) (hidx : IdxOK tx inIdx) (hB : 520 ≤ B) (hB2 : B < 2 ^ 32)
     (hs : stack.length ≤ 1000) (he : ∀ x ∈ stack, x.length ≤ B) :
     match evalScript (realCtx tx inIdx) fl stack script with
     | .ok s' => Ref.evalScript (realEnv tx inIdx) fl stack script = some s'
-    | .error _ => Ref.evalScript (realEnv tx inIdx) fl stack script = none := by
-  have h := C06.eval_equiv (realCtx tx inIdx) fl stack script B hB hB2
-    (by rw [realCtx_env]; exact hh) (by simp [realCtx])
-    (by rw [realCtx_env]; exact codesepInsensitive_real tx inIdx) hs he
-  rw [realCtx_env] at h
-  exact h
+    | .error _ => Ref.evalScript (realEnv tx inIdx) fl stack script = none :=
+  C06.eval_equiv (realCtx tx inIdx) fl stack script B hB hB2 hashesOK_real
+    (sigHashOK_real tx inIdx hwf hidx) (codesepInsensitive_real tx inIdx) hs he
 
 /-- `verify_equiv` for the concrete environment: arbitrary scriptSig / scriptPubKey bytes, any
-    transaction and input index, the 12 admissible flag sets -/
-theorem verify_equiv_real (tx : Tx) (inIdx : Nat) (fl : Flags) (sig spk : Bytes)
-    (hh : HashesOK realHashes) (hf : fl.admissible = true) :
+    transaction in wire range, any index that is non-negative or wraps, the 12 admissible flag sets -/
+theorem verify_equiv_real (tx : Tx) (inIdx : Int) (fl : Flags) (sig spk : Bytes)
+    (hwf : Sighash.FieldsWF tx) (hidx : IdxOK tx inIdx) (hf : fl.admissible = true) :
     (verifyScript (realCtx tx inIdx) fl sig spk = .ok ()) ↔
-      (Ref.verifyScript (realEnv tx inIdx) fl sig spk = true) := by
-  have h := C06.verify_equiv (realCtx tx inIdx) fl sig spk hf
-    (by rw [realCtx_env]; exact hh) (by simp [realCtx])
-    (by rw [realCtx_env]; exact codesepInsensitive_real tx inIdx)
-  rw [realCtx_env] at h
-  exact h
+      (Ref.verifyScript (realEnv tx inIdx) fl sig spk = true) :=
+  C06.verify_equiv (realCtx tx inIdx) fl sig spk hf hashesOK_real (sigHashOK_real tx inIdx hwf hidx)
+    (codesepInsensitive_real tx inIdx)
+
+/-- `only_known_findings_class` for the concrete environment: for a transaction in wire range,
+    ARBITRARY scriptSig / scriptPubKey bytes, any Python int index and any of the 16 flag sets, an
+    exception of `VerifyScript` that is not a ValidationError is
+    * IndexError, and then `inIdx < 0` and `inIdx < −|vin|` or `inIdx < −|vout|` (D7), or
+    * AssertionError, and then the flag set has CLEANSTACK without P2SH (D6). -/
+theorem only_known_findings_real (tx : Tx) (inIdx : Int) (fl : Flags) (sig spk : Bytes)
+    (hwf : Sighash.FieldsWF tx) (e : Err)
+    (h : verifyScript (realCtx tx inIdx) fl sig spk = .error e) (hv : e.isValidation = false) :
+    (e = .py "IndexError" ∧ inIdx < 0 ∧ (inIdx < -(tx.vin.length : Int) ∨ inIdx < -(tx.vout.length : Int))) ∨
+    (e = .py "AssertionError" ∧ fl.admissible = false) := by
+  obtain ⟨cls, rfl, h1 | ⟨rfl, h2⟩⟩ := C07.only_known_findings (realCtx tx inIdx) fl hashesOK_real sig spk e h hv
+  · left
+    obtain ⟨rfl, h3, h4⟩ := (raises_real_iff tx inIdx hwf cls).mp h1
+    exact ⟨rfl, h3, h4⟩
+  · right; exact ⟨rfl, h2⟩
 
 /-- `verify_contained` for the concrete environment -/
-theorem verify_contained_real (tx : Tx) (inIdx : Nat) (fl : Flags) (sig spk : Bytes)
-    (hh : HashesOK realHashes) (hf : fl.admissible = true) :
+theorem verify_contained_real (tx : Tx) (inIdx : Int) (fl : Flags) (sig spk : Bytes)
+    (hwf : Sighash.FieldsWF tx) (hidx : IdxOK tx inIdx) (hf : fl.admissible = true) :
     verifyScript (realCtx tx inIdx) fl sig spk = .ok () ∨
     ∃ e, verifyScript (realCtx tx inIdx) fl sig spk = .error e ∧ e.isValidation = true :=
-  C07.verify_contained (realCtx tx inIdx) fl (by rw [realCtx_env]; exact hh) (by simp [realCtx]) hf sig spk
+  C07.verify_contained (realCtx tx inIdx) fl hashesOK_real (no_raises_real tx inIdx hwf hidx) hf sig spk
 
-/-- `error_state_limits` for the concrete environment (any integer index, any flag set) -/
-theorem error_state_limits_real (tx : Tx) (inIdx : Int) (fl : Flags) (sig spk : Bytes)
-    (hh : HashesOK realHashes) (cap : Captured)
+/-- `eval_contained` for the concrete environment -/
+theorem eval_contained_real (tx : Tx) (inIdx : Int) (fl : Flags) (stack : List Bytes) (script : Bytes) (B : Nat)
+    (hwf : Sighash.FieldsWF tx) (hidx : IdxOK tx inIdx) (hB : 520 ≤ B) (hB2 : B < 2 ^ 32)
+    (hs : stack.length ≤ 1000) (he : ∀ x ∈ stack, x.length ≤ B) :
+    (∃ s, evalScript (realCtx tx inIdx) fl stack script = .ok s) ∨
+    ∃ cap, evalScript (realCtx tx inIdx) fl stack script = .error (.eval cap) :=
+  C07.eval_contained (realCtx tx inIdx) fl hashesOK_real (no_raises_real tx inIdx hwf hidx) stack script B hB hB2 hs he
+
+/-- `error_state_limits` for the concrete environment: NO hypothesis — any transaction (in wire range
+    or not), any Python int index, any of the 16 flag sets, arbitrary bytes -/
+theorem error_state_limits_real (tx : Tx) (inIdx : Int) (fl : Flags) (sig spk : Bytes) (cap : Captured)
     (h : verifyScript (realCtx tx inIdx) fl sig spk = .error (.eval cap)) :
     cap.stack.length + cap.altstack.length ≤ 1003 ∧ cap.nOpCount ≤ 221 ∧
     (∀ x ∈ cap.stack, x.length ≤ 520) ∧ (∀ x ∈ cap.altstack, x.length ≤ 520) :=
-  C07.error_state_limits (realCtx tx inIdx) fl (by simpa [realCtx, realEnv] using hh) sig spk cap h
+  C07.error_state_limits (realCtx tx inIdx) fl hashesOK_real sig spk cap h
 
 /-! ### non-vacuity -/
 
-/-- an admissible flag set exists, and the separator lemma is about a genuine operation boundary:
-    a 0xab byte inside a push is NOT removed (C03 `exScript`) -/
 example : ({ p2sh := true } : Flags).admissible = true := by decide
+
+/-- `IdxOK` has negative members: −1 for a transaction with an input and an output -/
+example (tx : Tx) (h1 : 1 ≤ tx.vin.length) (h2 : 1 ≤ tx.vout.length) : IdxOK tx (-1) := by
+  right; omega
+
+/-- D7 is reachable: below −|vin| some signature hash raises IndexError -/
+example (tx : Tx) (hwf : Sighash.FieldsWF tx) : (realCtx tx (-(tx.vin.length : Int) - 1)).Raises "IndexError" :=
+  (raises_real_iff tx _ hwf _).mpr ⟨rfl, by omega, Or.inl (by omega)⟩
 
 end BtcVerif.C06.Concrete
